@@ -129,7 +129,7 @@ import %(mod)s as M
 
 def run(rep, tier, only=None):
     snapshot.activate()
-    T = 150 if tier == 'quick' else 900
+    T = 300 if tier == 'quick' else 900
     rep.functions += ['Cython/Compiler/Options.py: parse_directive_value, parse_directive_list, one_of, normalise_* validators',
                       'Cython/Compiler/ParseTreeTransforms.py InterpretCompilerDirectives (header / decorator / with scopes) and Main/CmdLine option plumbing, '
                       'observed through the C generated for `a // b` in 9 scope shapes x 7 module configurations']
